@@ -73,9 +73,12 @@ type Sched struct {
 	StayNum   int          // stay-bias: with probability StayNum/StayDen keep running the last task if enabled
 	StayDen   int
 	// PCT-like priorities (optional): if non-nil, the enabled task with highest priority runs.
-	Prio      map[string]int
-	Suppress  func() bool // optional: true = caller is in a context where parking is forbidden
-	lockSites map[string]int
+	Prio     map[string]int
+	Suppress func() bool // optional: true = caller is in a context where parking is forbidden
+	// MaxPreempt >= 0 bounds preemptions (switching away from a task that could continue); -1 = unbounded.
+	MaxPreempt int
+	Preempts   int
+	lockSites  map[string]int
 }
 
 var cur atomic.Pointer[Sched]
@@ -86,15 +89,16 @@ func Current() *Sched { return cur.Load() }
 // Install creates a scheduler whose root is the calling goroutine.
 func Install(ch Chooser) *Sched {
 	s := &Sched{
-		tasks:     map[uint64]*Task{},
-		wakeRoot:  make(chan struct{}, 1),
-		locks:     map[uintptr]*lockState{},
-		anon:      map[string]int{},
-		ch:        ch,
-		rootGID:   curGID(),
-		StayNum:   0,
-		StayDen:   1,
-		lockSites: map[string]int{},
+		tasks:      map[uint64]*Task{},
+		wakeRoot:   make(chan struct{}, 1),
+		locks:      map[uintptr]*lockState{},
+		anon:       map[string]int{},
+		ch:         ch,
+		rootGID:    curGID(),
+		StayNum:    0,
+		StayDen:    1,
+		MaxPreempt: -1,
+		lockSites:  map[string]int{},
 	}
 	cur.Store(s)
 	return s
@@ -408,6 +412,27 @@ func (s *Sched) Pick(ps []Parked) (Parked, bool) {
 			return s.Pick(ps)
 		}
 		return en[best], true
+	}
+	if s.MaxPreempt >= 0 && s.last != nil {
+		for i := range en {
+			if en[i].Task == s.last {
+				if s.Preempts >= s.MaxPreempt {
+					return en[i], true
+				}
+				// choice 0 = continue the running task; others = preempt
+				k := s.ch.Choose("sched", len(en))
+				if k == 0 {
+					return en[i], true
+				}
+				s.Preempts++
+				j := k - 1
+				if j >= i {
+					j++
+				}
+				return en[j], true
+			}
+		}
+		return en[s.ch.Choose("sched", len(en))], true
 	}
 	if s.StayNum > 0 && s.last != nil {
 		for i := range en {
